@@ -1,4 +1,7 @@
 import IPT.Model.Times
+import IPT.Thm.C11
+import IPT.Lemmas.Angle
+import IPT.Lemmas.Trig
 /-
   C07 — computing prayer times never panics or hangs on valid input (decision-logic part).
   Proved for EVERY scalar type α, with no law assumed about its arithmetic: these statements
@@ -116,6 +119,64 @@ theorem prayerTimesDt_ok_of_times (p : Params α) (loc : Location α) (rd : Int)
   obtain ⟨m, hm⟩ := hopt p .Maghrib h.magh
   obtain ⟨i, hi⟩ := hopt p .Isha h.isha
   simp [assemble, hf, hs, hdd, ha, hm, hi, him]
+
+section real
+open IPT.AngleLemmas IPT.TrigLemmas
+
+/-- get_hour_angle is in (−180°, 180°] -/
+theorem C01_hourAngle_range (sid ra lon : ℝ) (d : ℝ × ℝ) (m : ℝ) :
+    -180 < hourAngle sid ra lon d m ∧ hourAngle sid ra lon d m ≤ 180 := by
+  unfold hourAngle
+  obtain ⟨a, b, _⟩ := capAngleBetween180_spec
+    (capAngle360 (sid + Gen.SIDEREAL_RATE * m) + lon - (ra + m * (d.1 + d.2 * m) / 2.0))
+  exact ⟨a, b⟩
+
+/-- over ℝ the conventional Dhuhr lies in [−12 h, 36 h) -/
+theorem dhuhr_bounds (t : TopAstroDay ℝ) (w : Weather ℝ) :
+    -12 ≤ (shurDhuhrMagh t w).2.1 ∧ (shurDhuhrMagh t w).2.1 < 36 := by
+  simp only [shurDhuhrMagh, c_TWO_PI_DEG, c_HRS_PER_DAY]
+  obtain ⟨m0, m1, _⟩ := capAngle1_spec ((t.cur.ra - t.coords.lon - t.cur.sid) / 360)
+  set m := capAngle1 ((t.cur.ra - t.coords.lon - t.cur.sid) / 360)
+  have hH := C01_hourAngle_range t.cur.sid t.cur.ra t.coords.lon (raInterpDeltas t.prev.ra t.cur.ra t.next.ra) m
+  constructor <;> nlinarith [hH.1, hH.2]
+
+/-- …and Fajr, Isha and Asr within 180·c ≈ 12 h of it -/
+theorem twilight_bounds (angF angI lat dec dhuhr x : ℝ)
+    (h : (fajrIsha angF angI lat dec dhuhr).1 = some x ∨ (fajrIsha angF angI lat dec dhuhr).2 = some x) :
+    dhuhr - 13 ≤ x ∧ x ≤ dhuhr + 13 := by
+  have hc : (0 : ℝ) < Gen.DEGREES_TO_10_BASE ∧ (Gen.DEGREES_TO_10_BASE : ℝ) < 7 / 100 := by
+    rw [c_DEGREES_TO_10_BASE]; constructor <;> norm_num
+  have hdeg : ∀ r : ℝ, 0 ≤ toDegrees (Real.arccos r) ∧ toDegrees (Real.arccos r) ≤ 180 := by
+    intro r
+    refine ⟨toDegrees_nonneg (Real.arccos_nonneg r), ?_⟩
+    rw [toDegrees_real]
+    have := Real.arccos_le_pi r
+    have hp := Real.pi_pos
+    rw [mul_div_assoc', div_le_iff₀ hp]; nlinarith
+  unfold fajrIsha at h
+  simp only [sc_acos] at h
+  rcases h with h | h <;> (split at h <;> [skip; simp at h]) <;> simp only [Option.some.injEq] at h <;>
+    rw [← h] <;> constructor <;> nlinarith [hdeg (twilightCos lat dec angF), hdeg (twilightCos lat dec angI), hc.1, hc.2]
+
+/-- **so over ℝ the conversions of Dhuhr, Fajr and Isha to a clock time always succeed** (h < 24,
+    m < 60, s < 60, wrap loop within fuel) for minute offsets within ±1500; Asr likewise.  Shurooq
+    and Maghrib carry a Newton correction that no theorem here bounds (their conversion succeeds
+    whenever the hour is ≥ −2.4·10⁶, Thm C11 `hourToTime_ok`). -/
+theorem angle_hours_convert (p : Params ℝ) (t : TopAstroDay ℝ) (w : Weather ℝ) (pr : Prayer) (x : ℝ)
+    (hoff : |p.minutes pr| ≤ 1500)
+    (hx : (getHours p t w).dhuhr = some x ∨ (getHours p t w).fajr = some x ∨ (getHours p t w).isha = some x) :
+    ∃ tm, hourToTime p pr x = .ok tm := by
+  have hd := dhuhr_bounds t w
+  have hb : -25 ≤ x ∧ x ≤ 49 := by
+    simp only [getHours] at hx
+    rcases hx with h | h | h
+    · simp only [Option.some.injEq] at h; rw [← h]; constructor <;> linarith [hd.1, hd.2]
+    · have := twilight_bounds _ _ _ _ _ x (Or.inl h); constructor <;> linarith [hd.1, hd.2, this.1, this.2]
+    · have := twilight_bounds _ _ _ _ _ x (Or.inr h); constructor <;> linarith [hd.1, hd.2, this.1, this.2]
+  rw [abs_le] at hoff
+  apply C11.hourToTime_ok <;> linarith [hb.1, hb.2, hoff.1, hoff.2]
+
+end real
 
 -- non-vacuity: the hypothesis of `adjForExtLat_ok` is met by the shape of the original defect's
 -- witness (interval-based Isha, Fajr/Isha invalid), and `getHours` always meets it
